@@ -19,7 +19,9 @@ def check(pid, category, text, note, technique, design_ref, thorough=True):
         "technique": technique,
     }
 
-exec(open(os.path.join(ROOT, "lib", "manifest_table.py")).read())
+for _f in sorted(os.listdir(os.path.join(ROOT, "lib", "manifest.d"))):
+    if _f.endswith(".py"):
+        exec(open(os.path.join(ROOT, "lib", "manifest.d", _f)).read())
 
 props = [json.loads(l)["id"] for l in open(os.path.join(ROOT, "properties.jsonl"))]
 manifest = {
